@@ -45,6 +45,8 @@ type upConn struct {
 	dropped  bool           // dropped by the script
 	closed   bool           // the upstream's read loop ended
 	pings    int
+	pongs    int           // pongs written successfully
+	pongLat  time.Duration // worst time between reading a ping and having written its pong
 	reused   bool // a subscribe arrived after every earlier subscription on it had ended
 	abrupt   bool // the client end vanished without a close handshake although the script did not drop it
 	wmu      sync.Mutex // serialises writers so that "written" and the wire agree
@@ -93,6 +95,7 @@ type subState struct {
 	stopSeen  bool // ws: client sent complete/stop for the wire id
 	dropped   bool // its connection / stream was dropped by the script after the subscribe was seen
 	dropInSub bool // a scripted drop hit its tuple while its Subscribe call was in flight
+	silenced  bool // its connection stopped answering pings (ping part)
 	inFlightCancel []int // same-tuple subscriptions cancelled while this Subscribe call was in flight
 }
 
@@ -395,9 +398,16 @@ func (w *world) serveWS(rw http.ResponseWriter, r *http.Request) {
 			w.bump()
 			w.mu.Unlock()
 			if !silent {
+				t0 := time.Now()
 				uc.wmu.Lock()
-				_ = ws.Write(w.ctx, websocket.MessageText, []byte(`{"type":"pong"}`))
+				err := ws.Write(w.ctx, websocket.MessageText, []byte(`{"type":"pong"}`))
 				uc.wmu.Unlock()
+				w.mu.Lock()
+				if err == nil {
+					uc.pongs++
+				}
+				uc.pongLat = max(uc.pongLat, time.Since(t0))
+				w.mu.Unlock()
 			}
 		case "pong", "connection_terminate":
 		default:
